@@ -22,6 +22,7 @@ AXDIR = {'x': (1, 0, 0), 'y': (0, 1, 0), 'z': (0, 0, 1), '110': (1, 1, 0), '111'
 MENU = (np.array([0.31, 0.77, 0.52]), np.array([0.93, 0.12, 0.64]))
 CONST_DRAW = np.array([0.31, 0.77, 0.52])
 QUICK_CUBE = ('generic', 'col_x', 'col_z')
+INPLACE = ((0, 1), (5, 0), (25, 2))       # (rotation index, translation index) applied to the construction object in place
 
 
 _ROT = {}
@@ -145,9 +146,17 @@ class C02(Check):
         rots = rotations(seed)
         ris = [case['rot']] if 'rot' in case else ([0, 24, 25, 26] if case.get('rs') == 'gen' else range(len(rots)))
         tis = [case['tr']] if 'tr' in case else range(len(TRANSL))
+        # the construction object itself moved IN PLACE (a map must not assume it still is where it was)
+        if case.get('inplace'):
+            yield case['rot'], case['tr'], rots[case['rot']], TRANSL[case['tr']], True
+            return
         for ri in ris:
             for ti in tis:
-                yield ri, ti, rots[ri], TRANSL[ti]
+                yield ri, ti, rots[ri], TRANSL[ti], False
+        if 'inplace' in case:
+            return
+        for ri, ti in INPLACE:
+            yield ri, ti, rots[ri], TRANSL[ti], True
 
     def _general(self, case, R, seed):
         from gaddlemaps import ExchangeMap
@@ -175,13 +184,14 @@ class C02(Check):
             return
         moved = ref.copy()
         kind = 'axis-invariants' if all(degenerate) else ('full-equality' if not any(degenerate) else 'mixed')
-        for ri, ti, rot, tr in self._motions(case, seed):
-            cdesc = dict(case, rot=ri, tr=ti)
+        for ri, ti, rot, tr, inplace in self._motions(case, seed):
+            cdesc = dict(case, rot=ri, tr=ti, inplace=int(inplace))
             mpos = rpos @ rot.T + tr
-            moved.atoms_positions = mpos
-            rc = 'cube' if ri < 24 else 'genrot'
+            obj = ref if inplace else moved
+            obj.atoms_positions = mpos
+            rc = ('cube' if ri < 24 else 'genrot') + ('-inplace' if inplace else '')
             try:
-                out = emap(moved).atoms_positions
+                out = emap(obj).atoms_positions
             except Exception as ex:
                 R.case(cdesc, nontrivial=False, outcome='exception', cls=f'n{n}/{geo}/{rc}')
                 R.violation(f'call/{geo}/exception', cdesc, repr(ex))
@@ -259,14 +269,15 @@ class C02(Check):
             R.violation(f'call/{name}/non-finite', case, base.tolist())
             return
         moved = ref.copy()
-        for ri, ti, rot, tr in self._motions(case, seed):
-            cdesc = dict(case, rot=ri, tr=ti)
+        for ri, ti, rot, tr, inplace in self._motions(case, seed):
+            cdesc = dict(case, rot=ri, tr=ti, inplace=int(inplace))
             mpos = rpos @ rot.T + tr
-            moved.atoms_positions = mpos
-            rc = 'cube' if ri < 24 else 'genrot'
+            obj = ref if inplace else moved
+            obj.atoms_positions = mpos
+            rc = ('cube' if ri < 24 else 'genrot') + ('-inplace' if inplace else '')
             try:
                 with owned_random(Draws(menu[cj])):
-                    out = emap(moved).atoms_positions
+                    out = emap(obj).atoms_positions
             except Exception as ex:
                 R.case(cdesc, nontrivial=False, outcome='exception', cls=f'{name}/{rc}')
                 R.violation(f'call/{name}/exception', cdesc, repr(ex))
